@@ -77,19 +77,19 @@ def CE.eval (args : Args) (v : Val) : CE → Option Bool
   | .not a => (a.eval args v).map (!·)
   | .isin n => match args n with | .vals vs => some (vs.any (Val.eqv v)) | _ => Option.none
   | .strMatch n => match args n with
-    | .pat p => some (match v.str? with | some s => p.prefixMatch s | Option.none => false)
+    | .pat p => strOp (fun s => p.prefixMatch s) v
     | _ => Option.none
   | .strContains n => match args n with
-    | .pat p => some (match v.str? with | some s => p.search s | Option.none => false)
+    | .pat p => strOp (fun s => p.search s) v
     | _ => Option.none
   | .strStartswith n => match args n with
-    | .str a => some (match v.str? with | some s => a.toList.isPrefixOf s.toList | Option.none => false)
+    | .str a => strOp (fun s => a.toList.isPrefixOf s.toList) v
     | _ => Option.none
   | .strEndswith n => match args n with
-    | .str a => some (match v.str? with | some s => a.toList.isSuffixOf s.toList | Option.none => false)
+    | .str a => strOp (fun s => a.toList.isSuffixOf s.toList) v
     | _ => Option.none
   | .strLenCmp op n => match args n with
-    | .nat k => some (match v.str? with | some s => cmpNat op s.length k | Option.none => false)
+    | .nat k => strOp (fun s => cmpNat op s.length k) v
     | _ => Option.none
   | .ifNone ns t e => if ns.all (fun n => args n == .none) then t.eval args v else e.eval args v
   | .ifFlag n t e => match args n with
